@@ -4,12 +4,16 @@ import (
 	"errors"
 	"math/rand"
 	"strings"
+	"sync"
 	"time"
 )
 
 const letters = "abcdefghijklmnopqrstuvwxyzABCDEFGHIJKLMNOPQRSTUVWXYZ0123456789_-"
 
-var randSource = rand.New(rand.NewSource(time.Now().UnixNano()))
+var (
+	randSourceMu sync.Mutex // randSource is shared by all instances, and *rand.Rand is not goroutine safe.
+	randSource   = rand.New(rand.NewSource(time.Now().UnixNano()))
+)
 
 func ParseStringFunc(shoot string) (string, []string, error) {
 	openIdx := strings.IndexRune(shoot, '(')
@@ -44,8 +48,10 @@ func RandStringRunes(n int64, s string) string {
 		n = 0
 	}
 	b := make([]rune, n)
+	randSourceMu.Lock()
 	for i := range b {
 		b[i] = letterRunes[randSource.Intn(len(letterRunes))]
 	}
+	randSourceMu.Unlock()
 	return string(b)
 }
